@@ -566,8 +566,23 @@ pub fn run(args: &Args) {
         if r.chance(1, 20) {
             bs = r.usize_below(40);
         }
+        // constructors: new(size, page); NewBitmap::with_len(size) and Default (system page size)
+        let ctor = r.below(8);
+        if ctor >= 6 {
+            // SAFETY: plain sysconf.
+            page = unsafe { libc::sysconf(libc::_SC_PAGE_SIZE) } as usize;
+            if ctor == 7 {
+                bs = 0;
+            } else if !cfg!(miri) && r.chance(1, 2) {
+                bs = page * (1 + r.usize_below(130)) + r.usize_below(3).wrapping_sub(1).min(page);
+            }
+        }
         let mut m = Model::new(bs, page);
-        let b = guarded(|| AtomicBitmap::new(bs, NonZeroUsize::new(page).unwrap()));
+        let b = guarded(|| match ctor {
+            6 => <AtomicBitmap as vm_memory::bitmap::NewBitmap>::with_len(bs),
+            7 => AtomicBitmap::default(),
+            _ => AtomicBitmap::new(bs, NonZeroUsize::new(page).unwrap()),
+        });
         let mut b = match b {
             Ok(b) => Arc::new(b),
             Err(p) => {
